@@ -31,6 +31,8 @@ def _cases(draw):
     mt = draw(st.integers(1, 5))
     nfail = draw(st.sampled_from([0, 0, 0, 1, 2]))
     fails = sorted(draw(st.sets(st.integers(0, max(0, n - 1)), max_size=nfail))) if n else []
+    unp = sorted(draw(st.sets(st.integers(0, max(0, n - 1)), max_size=draw(st.sampled_from([0, 0, 0, 1, 2]))))) if n else []
+    unp = [i for i in unp if i not in fails]
     tol = draw(st.sampled_from([True, True, True, False]))
     use_run = draw(st.sampled_from([False, False, False, True]))
     style = draw(st.integers(0, 3))
@@ -42,7 +44,7 @@ def _cases(draw):
     else:
         sched = draw(st.lists(st.integers(0, 11), max_size=120))
     delays = draw(st.lists(st.integers(0, 6), min_size=1, max_size=4))
-    return {"n": n, "par": par, "max_tasks": mt, "fail": fails, "tolerate": tol, "use_run": use_run,
+    return {"n": n, "par": par, "max_tasks": mt, "fail": fails, "unpicklable": unp, "tolerate": tol, "use_run": use_run,
             "schedule": sched, "delays": delays}
 
 
@@ -52,7 +54,11 @@ def strategy(tier):
 
 def _judge(case, out, labels):
     n = case["n"]
-    fails = set(case["fail"])
+    # a task whose result cannot be pickled is a failed task (the worker checks picklability so that the error is reported, not lost);
+    # in the single-process path nothing is pickled and the value is delivered as is
+    single = min(case["par"], n) <= 1
+    unp = set(case.get("unpicklable", ())) if not single else set()
+    fails = set(case["fail"]) | unp
     det = {"outcome": {k: out[k] for k in ("delivered", "raised", "bound", "steps", "run_result", "crashes")}}
     if out["crashes"]:
         raise Violation("worker-crash", f"worker body crashed: {out['crashes'][:2]}", det)
@@ -70,6 +76,8 @@ def _judge(case, out, labels):
         if not case["tolerate"] and fails:
             raise Violation("failure-not-raised", "tolerate_fails=False but the failing task's error was not raised", det)
         exp_ok = {i: i * 2 + 1 for i in range(n) if i not in fails}
+        if single:
+            ok = {k: (v["value"] if isinstance(v, dict) else v) for k, v in ok.items()}
         if ok != exp_ok or set(bad) != fails:
             raise Violation("lost-or-wrong-result", f"run() returned success={ok} fail={sorted(bad)}; expected success for {sorted(exp_ok)} fail for {sorted(fails)}", det)
         return
@@ -77,7 +85,13 @@ def _judge(case, out, labels):
     if len(ids) != len(set(ids)):
         raise Violation("duplicate-result", f"an id was delivered twice: {ids}", det)
     for (i, res, exc) in out["delivered"]:
-        if i in fails:
+        if i in unp:
+            if exc is None:
+                raise Violation("wrong-payload", f"id {i}: its result cannot be pickled, a failure outcome is expected, got result={res!r}", det)
+        elif single and i in set(case.get("unpicklable", ())):
+            if exc is not None or not isinstance(res, dict) or res.get("value") != i * 2 + 1:
+                raise Violation("wrong-payload", f"id {i}: got result={res!r} exc={exc}", det)
+        elif i in fails:
             if exc is None or ("boom-%s" % i) not in str(exc):
                 raise Violation("wrong-payload", f"id {i} should carry its task's exception, got result={res} exc={exc}", det)
         elif res != i * 2 + 1 or exc is not None:
@@ -85,7 +99,7 @@ def _judge(case, out, labels):
     if out["raised"] is not None:
         if case["tolerate"] or not fails:
             raise Violation("unexpected-raise", f"irun raised {out['raised']}", det)
-        if not any(("boom-%s" % i) in str(out["raised"][1]) for i in fails):
+        if not any(("boom-%s" % i) in str(out["raised"][1]) for i in fails) and not unp:
             raise Violation("unexpected-raise", f"irun raised {out['raised']}, not a failing task's error", det)
         if not set(ids) <= set(range(n)):
             raise Violation("lost-or-wrong-result", f"unknown ids delivered {ids}", det)
@@ -103,8 +117,12 @@ def check(case):
     if case.get("real"):
         return _check_real(case)
     out = run_case(case["n"], case["par"], case["max_tasks"], case["fail"], case["tolerate"],
-                   case["schedule"], case["delays"], use_run=case["use_run"])
-    labels = list(out["events"])
+                   case["schedule"], case["delays"], use_run=case["use_run"], unpicklable_ids=case.get("unpicklable", ()))
+    if case.get("unpicklable"):
+        labels_extra = ["unpicklable-result"]
+    else:
+        labels_extra = []
+    labels = list(out["events"]) + labels_extra
     pool = min(case["par"], case["n"])
     labels.append("pool-%d" % pool)
     if out["restarts"]:
